@@ -11,6 +11,18 @@ CHECKS = {
  "C01": dict(engine="E1 enum", sec="4/C01", technique=E1,
    text="Every frame of the enumerated product (all 65536 addresses x all 256 types x {empty, 1-byte} data; every length 1..255 x every position x every byte value; boundary lengths) is encoded by the real encoder, compared byte-for-byte with an arithmetic reference encoder, checked for zero-sum/upper-case/CRLF shape, decoded from both encodings and compared with the original; Data::try_new is tried for every length 0..300 and beyond. Exhaustive over that stated domain, which is what a round-trip claim over 'all frames' needs because the codec does not branch on data values.",
    note="Trusts the 25-line arithmetic reference encoder; joint variation of several data bytes only through two backgrounds."),
+ "C02": dict(engine="E1 enum", sec="4/C02", technique="exhaustive single-fault enumeration over the wire string of every base frame, decided on the real decoder",
+   text="For every base frame (10 addresses x 10 types x data blocks of 0..3, 16 and 64/128/255 bytes, plus constructed frames that embed a complete inner frame) and both encodings, EVERY single substitution (all 255 other byte values at every position), deletion, duplication, unequal adjacent transposition and proper prefix, and every wrong length-field and wrong checksum value, is decoded by the real decoder; the result must be an error or exactly the original frame. The fault space of one frame is finite, so it is enumerated completely rather than sampled.",
+   note="Base-frame set is finite and listed in the evidence; soundness of 'Ok(original)' exceptions argued in DESIGN.md."),
+ "C03": dict(engine="E1 enum", sec="4/C03", technique="bounded-exhaustive string enumeration (all strings up to length L; all strings within edit distance k of valid bases) compared with an independent parser",
+   text="All strings over the 28-symbol structural alphabet up to length 5 (quick) / 6 (thorough), every string within edit distance 1-2 (3 on the shortest bases) of ~75 valid and near-valid bases, and every position x all 256 byte values on long bases are decoded by the real decoder and by a hand-written index-arithmetic reference parser; class, reported fields, accepted frame and re-encoding must agree and nothing may panic.",
+   note="Trusts the 45-line reference parser; acceptance needs >= 11 bytes so it is reached through the neighbourhoods, not through the short-string sweep."),
+ "C04": dict(engine="E1 enum", sec="4/C04", technique=E1,
+   text="All 256 types x all 256 first data bytes x lengths {0,1,2,3,16,255} x 5 addresses x tail variants, and all 65536 addresses for each of the 30 recognised codes, type-0 frames and near-miss codes, go Frame -> Message -> Frame through the real conversions and are compared with a literal copy of the protocol table.",
+   note="Trusts the literal table in refmodel.rs (STATES, OPS, ref_classify)."),
+ "C05": dict(engine="E1 enum", sec="4/C05", technique=E1,
+   text="Every constructible specific message of the enumerated domain (2.3 M: all offsets/counts/addresses, all 13 states, all 6 operations, SendData of every length 0..=255) is taken message -> frame -> wire bytes -> frame -> message with both encodings and compared; injectivity is decided by sorting all wire encodings and re-checking equal fingerprints on the real bytes.",
+   note="Data contents are fill patterns; the conversion does not branch on data values beyond the first byte of 1-byte frames (covered by C04)."),
 }
 
 IMPLEMENTED = set(CHECKS)
